@@ -11,6 +11,10 @@
    ConfigState; on every Err the complete configuration is compared with a clone taken before; the recorded trace
    (command, result, projection of the whole state after every command) must be a behaviour of
    spec/Trace_ConfigState.tla, with P_C07 evaluated in every state. A corrupted trace must be rejected.
+4. harness/drive_config_worker: the same kind of commands sent to a real in-process worker over the command
+   channel; a Failure answer must leave the worker's queryable view (QueryClustersHashes, QueryClusterById,
+   QueryCertificatesFromWorkers) unchanged and the view must equal that of a library ConfigState fed with the same
+   commands; the (command, answer, configuration) trace must be a behaviour of WorkerHandle with the open deviations.
 """
 import os
 
@@ -23,9 +27,9 @@ PID = "C07"
 def run(tier, replay=None):
     rep = vlib.Report(PID, tier)
     wd = vlib.workdir(PID)
-    bins = vlib.cargo_build(["replay_config"] + cc.drive_bins())
+    bins = vlib.cargo_build(["replay_config"] + cc.drive_bins(worker=True))
     thorough = tier == "thorough"
-    inv = ["TypeOK", "P_C07"]
+    inv = ["TypeOK", "P_C07", "P_C07_Worker"]
 
     beh = os.path.join(wd, "behaviours.ndjson")
     if replay and replay.endswith(".ndjson"):
@@ -48,6 +52,7 @@ def run(tier, replay=None):
     rep.extra["verbs_accepted_rejected"] = sums[0]["verbs"]
     rep.add_samples(sums[0]["samples"], 3)
     cc.trace_leg(rep, PID, tier, wd, bins, "c07")
+    cc.worker_leg(rep, PID, tier, wd, bins)
     verbs = sums[0]["verbs"]
     never_rejected = [v for v, (a, r) in verbs.items() if r == 0 and v != "AddBackend"]
     never_accepted = [v for v, (a, r) in verbs.items() if a == 0]
@@ -60,6 +65,6 @@ def run(tier, replay=None):
                        "distinct_nontrivial = distinct (state, command) pairs compared" % cc.BOUNDS[tier])
     rep.assumptions += [
         "object universes are small (2 addresses, 2 clusters, 3-4 backend identities, 4-5 frontend keys, 2-3 certificates + 2 malformed ones); listener records are abstracted to representative fields, the other fields carry filler and are covered by the full-equality comparison on Err",
-        "worker- and main-process-level atomicity (a Failure answer of a worker, master state after a failed fan-out) is not decided by this check; see design_notes/C07.md",
+        "the worker's configuration is observed through its query verbs (clusters, their frontends and backends, certificates by fingerprint); listeners are not queryable from a worker. The main process's state after a failed fan-out is not decided here (see design_notes/C07.md)",
     ]
     rep.finish()
